@@ -17,11 +17,11 @@ import minimise as M  # noqa
 
 PROPS = {
     # id: dict(level, quick runs, thorough seconds, variants quick, variants thorough, chunk)
-    "C06": dict(level="exploration", quick=24000, thorough_s=600, vq=["asan", "asan", "asan-vblas"], vt=["asan", "asan-vblas", "asan-i64"], chunk=25),
-    "C07": dict(level="exploration", quick=16000, thorough_s=600, vq=["asan", "asan", "asan-vblas"], vt=["asan", "asan-vblas", "asan-i64"], chunk=20),
-    "C08": dict(level="fault_enumeration", quick=800, thorough_s=900, vq=["asan", "asan", "asan-vblas"], vt=["asan", "asan-vblas", "asan-i64"], chunk=2),
+    "C06": dict(level="exploration", quick=24000, thorough_s=600, vq=["asan", "asan-i64", "asan", "asan-vblas"], vt=["asan", "asan-vblas", "asan-i64"], chunk=25),
+    "C07": dict(level="exploration", quick=16000, thorough_s=600, vq=["asan", "asan-i64", "asan", "asan-vblas"], vt=["asan", "asan-vblas", "asan-i64"], chunk=20),
+    "C08": dict(level="fault_enumeration", quick=800, thorough_s=900, vq=["asan", "asan-i64", "asan", "asan-vblas"], vt=["asan", "asan-vblas", "asan-i64"], chunk=2),
     "C09": dict(level="exploration", quick=10000, thorough_s=900, vq=["tsan", "asan"], vt=["tsan", "asan", "tsan-i64", "asan-vblas"], chunk=5),
-    "C19": dict(level="exploration", quick=24000, thorough_s=900, vq=["asan", "asan", "asan-vblas"], vt=["asan", "asan-vblas", "asan-i64"], chunk=25),
+    "C19": dict(level="exploration", quick=24000, thorough_s=900, vq=["asan", "asan-i64", "asan", "asan-vblas"], vt=["asan", "asan-vblas", "asan-i64"], chunk=25),
     "C20": dict(level="exploration", quick=10000, thorough_s=600, vq=["asan", "tsan"], vt=["asan", "tsan", "asan-i64"], chunk=10),
 }
 PROP_NUM = {"C06": 6, "C07": 7, "C08": 8, "C09": 9, "C19": 19, "C20": 20}
